@@ -72,6 +72,16 @@ func (e *Engine) harnessAPI2(name string, args []Value, fn *ssa.Function) (Value
 			e.callFuncV(a.(*FuncV), nil)
 		}
 		return nil, true
+	case "vScribble":
+		// the owner of a byte slice overwrites it: recorded as a store into its backing object (the contents
+		// are not changed for the solver - what matters is who else can reach that memory)
+		if b, ok := args[0].(BytesV); ok && b.obj != nil {
+			e.noteWrite(b.obj.epoch, "scribble", b.obj.id, b.obj.tag)
+			if r := e.bytesRoot(b.obj); r != nil && r != b.obj {
+				e.noteWrite(r.epoch, "scribble", r.id, r.tag)
+			}
+		}
+		return nil, true
 	case "vFailRand":
 		return Iface{typ: e.fake("rand"), val: OpaqueV{kind: "rand-fail", data: e.mkErr("entropy source failed (vFailRand)")}}, true
 	case "vIsRandErr":
